@@ -42,9 +42,12 @@ class HarnessError(Exception):
 
 
 class Out:
-    __slots__ = ("nt", "classes", "bucket", "sig", "detail", "discard")
+    __slots__ = ("nt", "classes", "bucket", "sig", "detail", "discard", "n", "nt_n", "more")
 
-    def __init__(self, nt=False, classes=(), bucket=None, sig=None, detail=None, discard=None):
+    def __init__(self, nt=False, classes=(), bucket=None, sig=None, detail=None, discard=None, n=1, nt_n=None):
+        self.n = n  # number of evaluations this case stands for (a case may sweep a sub-domain)
+        self.nt_n = nt_n  # ... and how many of them were distinct and non-trivial (enumerated domains)
+        self.more = []  # further violations found while sweeping the same case: [(bucket, sig, detail)]
         self.nt = nt
         self.classes = classes
         self.bucket = bucket
@@ -53,12 +56,12 @@ class Out:
         self.discard = discard
 
 
-def ok(nt=False, classes=()):
-    return Out(nt=nt, classes=classes)
+def ok(nt=False, classes=(), n=1, nt_n=None):
+    return Out(nt=nt, classes=classes, n=n, nt_n=nt_n)
 
 
-def viol(bucket, sig=None, detail=None, nt=True, classes=()):
-    return Out(nt=nt, classes=classes, bucket=bucket, sig=sig, detail=detail)
+def viol(bucket, sig=None, detail=None, nt=True, classes=(), n=1, nt_n=None):
+    return Out(nt=nt, classes=classes, bucket=bucket, sig=sig, detail=detail, n=n, nt_n=nt_n)
 
 
 def discard(reason):
@@ -88,6 +91,10 @@ class Part:
         self.kind = "custom" if run else ("hyp" if strategy else "enum")
 
 
+def all_viols(out):
+    return ([(out.bucket, out.sig, out.detail)] if out.bucket is not None else []) + list(out.more)
+
+
 def digest(case):
     s = json.dumps(case, sort_keys=True, default=str, ensure_ascii=True)
     return int.from_bytes(hashlib.blake2b(s.encode(), digest_size=8).digest(), "big")
@@ -114,32 +121,35 @@ class Collector:
         if out.discard:
             self.discards[out.discard] += 1
             return
-        self.evaluations += 1
+        self.evaluations += out.n
         for c in out.classes:
-            self.classes[c] += 1
-        if out.nt:
+            if isinstance(c, tuple):
+                self.classes[c[0]] += c[1]
+            else:
+                self.classes[c] += 1
+        if out.nt or out.nt_n:
             if distinct_by_construction:
-                self.nt_enum += 1
+                self.nt_enum += out.nt_n if out.nt_n is not None else 1
             else:
                 self.nt.add(digest(case))
             if len(self.samples) < self.MAX_SAMPLES:
                 self.samples.append(case)
-        if out.bucket is not None:
-            kf = self.known.match(self.prop, out.bucket, out.sig)
+        for bucket, sig, detail in all_viols(out):
+            kf = self.known.match(self.prop, bucket, sig or {})
             if kf is not None:
                 self.excluded_known[kf["id"]] += 1
-                return
-            v = self.violations.get(out.bucket)
+                continue
+            v = self.violations.get(bucket)
             size = len(json.dumps(case, default=str))
             if v is None:
-                self.violations[out.bucket] = {
-                    "bucket": out.bucket, "sig": out.sig, "detail": out.detail, "case": case,
+                self.violations[bucket] = {
+                    "bucket": bucket, "sig": sig or {}, "detail": detail, "case": case,
                     "count": 1, "size": size, "part": self.part,
                 }
             else:
                 v["count"] += 1
                 if size < v["size"]:
-                    v.update(case=case, sig=out.sig, detail=out.detail, size=size)
+                    v.update(case=case, sig=sig or {}, detail=detail, size=size)
 
     def to_dict(self):
         return {
@@ -337,11 +347,11 @@ def replay_file(prop, path, quiet=False):
     part = get_part(mod, body["part"])
     out = _safe_check(part, body["case"])
     if not quiet:
-        if out.bucket is None:
+        if not all_viols(out):
             print(f"replay {path}: no violation")
-        else:
-            print(f"replay {path}: bucket={out.bucket} sig={json.dumps(out.sig, default=str)}")
-            print(f"  detail: {json.dumps(out.detail, default=str)[:3000]}")
+        for bucket, sig, detail in all_viols(out):
+            print(f"replay {path}: bucket={bucket} sig={json.dumps(sig, default=str)}")
+            print(f"  detail: {json.dumps(detail, default=str)[:3000]}")
     return out, body
 
 
@@ -366,13 +376,12 @@ def run_check(prop, tier, seed):
             path = os.path.join(regdir, fn)
             out, body = replay_file(prop, path, quiet=True)
             n_regress += 1
-            if out.bucket is None:
-                continue
-            kf = known.match(prop, out.bucket, out.sig)
-            if kf is not None:
-                reproduced.add(kf["id"])
-            else:
-                violations.append((out.bucket, os.path.relpath(path, VERIF)))
+            for bucket, sig, _detail in all_viols(out):
+                kf = known.match(prop, bucket, sig or {})
+                if kf is not None:
+                    reproduced.add(kf["id"])
+                else:
+                    violations.append((bucket, os.path.relpath(path, VERIF)))
     for e in known.open_for(prop):
         if e["id"] in reproduced:
             lines.append(f"KNOWN-FINDING: property={prop} {e['what']} [{e['id']}]")
